@@ -238,6 +238,14 @@ func (f *RunningEventFilter) onReorg(writer db.KeyValueWriter) error {
 		return err
 	}
 
+	// A snapshot written at an earlier shutdown describes the blocks being
+	// reverted; resuming it after an ungraceful restart would keep their bits and
+	// never index the replacement blocks below its next block. Drop it together
+	// with the revert; the next graceful shutdown writes a fresh one.
+	if err := DeleteRunningEventFilter(writer); err != nil {
+		return fmt.Errorf("deleting stale running event filter snapshot: %w", err)
+	}
+
 	currRangeStart := f.inner.FromBlock()
 	curBlock := f.next - 1
 	// Falls into previous filter's range
